@@ -22,6 +22,7 @@ type throwRec struct {
 	pos  token.Pos
 	heap Heap
 	callee string
+	cond string // condition under which the callee may throw (from its throws clauses)
 }
 
 func (f *frame) call(x *ssa.Call) {
@@ -234,6 +235,14 @@ func (f *frame) contractCall(callee *ssa.Function, fc *FuncContract, args []SV, 
 	oldHeap := f.curHeap.clone()
 	if !fc.NoThrow {
 		f.recordCallThrow(key, pos)
+		if len(fc.Throws) > 0 {
+			var cs []string
+			for _, th := range fc.Throws {
+				ctx := &evalCtx{f: f, pkg: pkg, bind: bind, heap: f.curHeap, what: "throws of " + key}
+				cs = append(cs, ctx.evalBoolText(th.Text))
+			}
+			f.throws[len(f.throws)-1].cond = and(cs...)
+		}
 	}
 	// frame
 	pureCond := ""
